@@ -79,6 +79,15 @@ def generate(run_seed, tier):
             rd["partitions"] = sorted(rw.sample(range(files), rw.randint(1, files - 1)))
         if rd["obs"] == "head":
             rd["n"] = rw.choice([1, 3, 5])
+        if reader == "arrow" and rw.random() < 0.35:
+            # user-supplied filters= (applied row-wise by the arrow reader) combined with whatever gets pushed down;
+            # only on columns without nulls (null semantics of reader-side filters: KF-C18-ne-null)
+            cands = [c for c, k in table["cols"].items() if k in ("int_dup", "int_uniq", "float")]
+            if cands:
+                c = rw.choice(cands)
+                v = rw.randint(0, 8) if table["cols"][c] != "float" else rw.randint(-4, 16) / 4.0
+                rd["filters"] = [[c, rw.choice([">", ">=", "<", "<=", "==", "!="]), v]]
+                rd.pop("partitions", None)  # partition numbers of a filtered read refer to the files that survive the filter
         reads.append(rd)
     if any(r["reader"] == "arrow" for r in reads) and not spec_force.get("arrow_with_metadata"):
         # known finding KF-C18-arrow-metadata-file: the arrow reader fails (KeyError 'all_files') on datasets with a _metadata file
@@ -154,6 +163,8 @@ def _open_reader(rd, kind):
     import dask_expr as dx
 
     kw = {"calculate_divisions": rd.get("calculate_divisions", False)}
+    if rd.get("filters") and not rd.get("_ignore_filters"):
+        kw["filters"] = [tuple(f) for f in rd["filters"]]
     if kind == "arrow":
         return dx.read_parquet("/bucket/ds", filesystem=simfs.arrow_fs(), **kw)
     return dx.read_parquet(URL, **kw)
@@ -220,7 +231,8 @@ def _execute(spec, ses):
         counters["reads"] += 1
         kind = rd["reader"]
         try:
-            r = _open_reader(rd, kind)
+            r_full = _open_reader(dict(rd, _ignore_filters=True), kind)  # the dataset as it is (round trip, divisions)
+            r = _open_reader(rd, kind) if rd.get("filters") else r_full
             _ = r._meta
         except Exception as e:
             if classify(e) == "refusal":
@@ -228,7 +240,7 @@ def _execute(spec, ses):
                 continue
             return _done(_v("read_failed", "%s:%s" % (kind, exc_signature(e)), exc_detail(e), read=ri), ses, counters, spec, faults)
         # (a) round trip of the full read (unoptimized graph = nothing pushed down but the read itself)
-        full = ses.compute_parts(r, refw, fuse=False, det={"labels": "defined" if labels else "open", "order": "open"})
+        full = ses.compute_parts(r_full, refw, fuse=False, det={"labels": "defined" if labels else "open", "order": "open"})
         if full.cls != "ok":
             if full.cls == "refusal":
                 counters["indeterminate"] += 1
@@ -247,7 +259,7 @@ def _execute(spec, ses):
             return _done(_v("roundtrip", "%s:%s" % (kind, why.split(" ")[0]), "full read differs from what was written: " + why, read=ri), ses, counters, spec, faults)
         # truthful divisions for the partitions actually read
         if rd.get("calculate_divisions"):
-            res = _division_truth(ses, r, refw)
+            res = _division_truth(ses, r_full, refw)
             counters["division_checks"] += 1
             if res is not None:
                 return _done(_v("divisions_untruthful", "%s:%s" % (kind, res[0]), res[1], read=ri), ses, counters, spec, faults)
@@ -260,9 +272,14 @@ def _execute(spec, ses):
                 continue
             rd = dict(rd, partitions=P_)
         try:
-            base = r.partitions[rd["partitions"]] if rd.get("partitions") else r
+            r_nof = r_full
+            base = r_nof.partitions[rd["partitions"]] if rd.get("partitions") else r_nof
             base_pdf = _parts_frame(ses, base, refw)
             mem = dx.from_pandas(base_pdf, npartitions=1, sort=False)
+            if rd.get("filters"):
+                opmap = {">": "gt", ">=": "ge", "<": "lt", "<=": "le", "==": "eq", "!=": "ne"}
+                for c_, o_, v_ in rd["filters"]:
+                    mem = mem[W.build_pred(mem, [opmap[o_], c_, v_])]
             q = _apply(r, rd)
             m = _apply(mem, rd, with_partitions=False)
         except Exception as e:
